@@ -599,6 +599,52 @@ example : genShouldRerun { name := "n.net1", rerunStatus := some "bogus" } (some
 example : genFilteredResults { name := "n", netsSpawner := some "lxc" } (some ⟨"sw", "net1"⟩)
     [⟨"a.sw.net1", "PASS", none⟩, ⟨"a.sw.net2", "FAIL", none⟩] = [⟨"a.sw.net1", "PASS", none⟩] := by decide
 
+/-! ### `default_run_decision`
+
+Translated in the state monad `StateT Bool (Except Err)`: the state is whether the instance attribute `should_rerun` has
+been replaced by `lambda _: False` (that assignment is the one pinned statement, it stands for `set true`);
+`self.should_rerun(worker)` is the action `rerunM` (the generated `genShouldRerun` unless disabled).  `a or <action>` is
+printed as statements (`pyTmp := a; if !pyTmp then pyTmp := ← action`), so the action runs only when Python runs it. -/
+
+local macro "run_simp" " [" ts:Lean.Parser.Tactic.simpLemma,* "]" : tactic => `(tactic|
+  simp [rerunM, StateT.run, bind, StateT.bind, Except.bind, Except.map, pure, StateT.pure, Except.pure, throw,
+    throwThe, MonadExceptOf.throw, StateT.lift, liftM, monadLift, MonadLift.monadLift, set, StateT.set,
+    MonadStateOf.set, MonadState.set, $ts,*])
+
+/-- **The hand written `defaultRunDecision` is the Python source of `default_run_decision`**: same decision, same
+"`should_rerun` disabled" flag afterwards, or the same error — for every configuration, worker, result list, outcome of
+`is_finished` / `scan_states` and initial flag.  No hypotheses. -/
+theorem defaultRunDecision_matches_source (c : Cfg) (w : Worker) (shared : List Result)
+    (finished scanRun disabled : Bool) :
+    (genDefaultRunDecision c w shared finished scanRun).run disabled =
+      defaultRunDecision c w shared finished scanRun disabled := by
+  unfold genDefaultRunDecision defaultRunDecision rerunM
+  rw [← shouldRerun_matches_source, ← filteredResults_matches_source]
+  by_cases h1 : (c.dryRun.getD "no" == "yes") = true
+  · run_simp [h1, dryRunDefault, dryRunYes]
+  by_cases h2 : c.flat = true
+  · run_simp [h1, h2, dryRunDefault, dryRunYes]
+  by_cases h3 : c.cloneSource = true
+  · run_simp [h1, h2, h3, dryRunDefault, dryRunYes]
+  by_cases h4 : isSubstr w.id c.name = true
+  · generalize genShouldRerun c (some w) shared = r
+    generalize hF : (genFilteredResults c c.startedWorker shared).isEmpty = fe
+    generalize hE : shared.isEmpty = se
+    cases hst : c.stateful <;> cases se <;> cases finished <;> cases scanRun <;> cases fe <;> cases disabled <;>
+      cases r <;> run_simp [h1, h2, h3, h4, hst, dryRunDefault, dryRunYes, hF, hE]
+  · run_simp [h1, h2, h3, h4, dryRunDefault, dryRunYes]
+
+/-- the generated definition computes: a stateless node without results runs; a stateful node whose state is missing
+runs; with no result and an available state the retry rule is switched off; a foreign worker is rejected -/
+example : (genDefaultRunDecision { name := "n.net1" } ⟨"sw", "net1"⟩ [] false false).run false = .ok (true, false) := by
+  decide
+example : (genDefaultRunDecision { name := "n.net1", stateful := true } ⟨"sw", "net1"⟩ [] false true).run false =
+    .ok (true, false) := by decide
+example : (genDefaultRunDecision { name := "n.net1", stateful := true, maxTries := some "3" } ⟨"sw", "net1"⟩ [] false
+    false).run false = .ok (false, true) := by decide
+example : (genDefaultRunDecision { name := "n.net1" } ⟨"sw", "net2"⟩ [] false false).run false =
+    .error .runtimeError := by decide
+
 end Regenerated
 
 end I2N.Props.C10
